@@ -51,6 +51,28 @@ def reflect(normal):
     return m
 
 
+def affine_strategy():
+    """Hypothesis strategy for 4x4 affine matrices given to chain_transform():
+    a shear (unit determinant), optionally times a diagonal and with a
+    translation column -- invertible by construction; rows as nested lists."""
+    from hypothesis import strategies as st
+    k = st.one_of(st.sampled_from([0.5, -0.5, 1.0, 0.25]),
+                  st.floats(min_value=-2, max_value=2))
+    d = st.sampled_from([1.0, 1.0, 2.0, 0.5, -1.0])
+    tr = st.one_of(st.just(0.0), st.integers(-8, 8).map(lambda i: i / 2.0))
+    pair = st.sampled_from([(0, 1), (0, 2), (1, 0), (1, 2), (2, 0), (2, 1)])
+
+    def build(t):
+        (i, j), kk, dd, tt = t
+        m = [[1.0 if r == c else 0.0 for c in range(4)] for r in range(4)]
+        for a in range(3):
+            m[a][a] = dd[a]
+            m[a][3] = tt[a]
+        m[i][j] = kk * dd[j]
+        return m
+    return st.tuples(pair, k, st.tuples(d, d, d), st.tuples(tr, tr, tr)).map(build)
+
+
 PLANE_NORMAL = {"xy": (0, 0, 1), "yz": (1, 0, 0), "zx": (0, 1, 0)}
 
 
@@ -90,6 +112,11 @@ class Model:
             self.chain(reflect(args[0]))
         elif name == "mirror":
             self.chain(reflect(PLANE_NORMAL[args[0] if args else "zx"]))
+        elif name == "chain_transform":
+            a = np.array(args[0], dtype=float)
+            if a.shape != (4, 4):
+                return ValueError
+            self.chain(a)
         elif name == "set_pivot":
             self.cur.pivot = tuple(float(c) for c in args[0])
         elif name == "save_state":
